@@ -2,6 +2,7 @@
 timings), independently of the Lean model.  A monitor failure is a concrete failing input for the property."""
 
 ANYSTR = object()
+ANYBOOL = object()
 
 
 class Absent:
@@ -44,6 +45,10 @@ def veq(a, b):
         return isinstance(b, str)
     if b is ANYSTR:
         return isinstance(a, str)
+    if a is ANYBOOL:
+        return isinstance(b, bool)
+    if b is ANYBOOL:
+        return isinstance(a, bool)
     if isinstance(a, dict) and isinstance(b, dict):
         return set(a.keys()) == set(b.keys()) and all(veq(a[k], b[k]) for k in a)
     if isinstance(a, list) and isinstance(b, list):
@@ -215,12 +220,34 @@ def normalise_input(case):
     return inp
 
 
+def engine_reports(case):
+    """{(step, stage): (output id, seq)} from the engine-side log (recording proxies around the real providers): the stage
+    outputs the ENGINE was told about, with the sequence number of the notification; None when the case has no such log"""
+    if "elog" not in case:
+        return None
+    out = {}
+    for e in case.get("elog") or []:
+        if e.get("ev") == "notify" and e.get("k") in ("change", "complete") and e.get("out") and e.get("prev"):
+            out.setdefault((e["step"], e["prev"]), (e["out"], e["seq"]))
+    return out
+
+
 def produced_at(case, seq=None):
-    """data model implied by the plugin-side log up to (excluding) sequence number seq"""
+    """data model implied by the logs up to (excluding) sequence number seq.  Values come from the plugin-side log; WHETHER and
+    WHEN an output counts as produced comes from the engine-side log when the case has one: a plugin that was finishing while the
+    terminating run force-closed its step has produced nothing as far as the workflow is concerned, and a step the engine closed
+    or declared crashed (closure timeout) has a closed / crashed output the plugin knows nothing about."""
     data = {"input": normalise_input(case), "steps": {}}
     steps = {s["id"]: s for s in case["wf"]["steps"]}
     for sid in steps:
         data["steps"][sid] = {}
+    eng = engine_reports(case)
+
+    def told(sid, stage, out):
+        if eng is None:
+            return True
+        r = eng.get((sid, stage))
+        return r is not None and r[0] == out and (seq is None or r[1] < seq)
     for e in case.get("log", []):
         if seq is not None and e["seq"] >= seq:
             break
@@ -229,15 +256,26 @@ def produced_at(case, seq=None):
             continue
         st = data["steps"][sid]
         if e["ev"] == "deploy-fail":
-            st["deploy_failed"] = {"error": {"error": ANYSTR}}
+            if told(sid, "deploy_failed", "error"):
+                st["deploy_failed"] = {"error": {"error": ANYSTR}}
         elif e["ev"] == "exec-start":
             st["enabling"] = {"resolved": {"enabled": True}}
             st["starting"] = {"started": {}}
         elif e["ev"] == "exec-end":
             if e.get("out") == "crash":
-                st["crashed"] = {"error": {"output": ANYSTR}}
-            else:
+                if told(sid, "crashed", "error"):
+                    st["crashed"] = {"error": {"output": ANYSTR}}
+            elif told(sid, "outputs", e["out"]):
                 st["outputs"] = {e["out"]: dec(e.get("data"))}
+    if eng is not None:
+        for (sid, stage), (out, at) in eng.items():
+            if sid not in steps or (seq is not None and at >= seq):
+                continue
+            st = data["steps"][sid]
+            if stage == "crashed" and "crashed" not in st:
+                st["crashed"] = {"error": {"output": ANYSTR}}      # e.g. closure timeout: the engine's verdict, not the plugin's
+            elif stage == "closed":
+                st["closed"] = {"result": {"cancelled": ANYBOOL, "close_requested": ANYBOOL}}
     # disabled steps leave no plugin-side trace: infer from the enabled expression
     for sid, s in steps.items():
         en = s.get("fields", {}).get("enabled")
